@@ -579,8 +579,7 @@ impl Lock {
             }
         }
         if resync_timer {
-            let tcr = self.mem.peek(0xffff80).unwrap_or(0);
-            let _ = catch_unwind(AssertUnwindSafe(|| self.cpu.bus.write(0xffff80, tcr)));
+            self.realign_timer_block();
         }
         // 3. steps that are not judged / failed may have written anywhere: resync the small regions
         let judged_ok = matches!((&step.outcome, &real), (Outcome::Ok(_), RealOutcome::Ok(_)));
@@ -618,8 +617,18 @@ impl Lock {
     /// (clock select 0 in the mirror's TCR0): nothing may move. An instruction that secretly
     /// configured a peripheral (partial address decoding, a write decoded twice) shows here, as a
     /// change of the timer registers at the next compare or as an interrupt request.
+    /// the control registers of all four channels are re-written through the bus with the baseline
+    /// values, so that whatever the peripheral derived from earlier writes is derived again
+    fn realign_timer_block(&mut self) {
+        for a in [0xffff80u32, 0xffff81, 0xffff90, 0xffff91] {
+            let v = self.mem.peek(a).unwrap_or(0);
+            let _ = catch_unwind(AssertUnwindSafe(|| self.cpu.bus.write(a, v)));
+        }
+    }
+
     fn let_time_pass(&mut self) -> bool {
-        if self.mem.peek(0xffff80).unwrap_or(0) & 7 != 0 {
+        // every channel of the 8-bit timer block (an implementation may model channels 1-3 too)
+        if [0xffff80u32, 0xffff81, 0xffff90, 0xffff91].iter().any(|a| self.mem.peek(*a).unwrap_or(0) & 7 != 0) {
             return false;
         }
         for _ in 0..40 {
@@ -657,8 +666,10 @@ impl Lock {
         if bad.is_empty() {
             return;
         }
-        // repair (the timer through its own register first, so that its private state stops too)
-        let _ = self.cpu.bus.write(0xffff80, 0);
+        // repair (the timer through its own registers first, so that its private state stops too)
+        for a in [0xffff80u32, 0xffff81, 0xffff90, 0xffff91] {
+            let _ = self.cpu.bus.write(a, 0);
+        }
         for ri in 0..5 {
             let src = self.mem.r[ri].clone();
             let dst = real_region_mut(&mut self.cpu, ri);
@@ -682,7 +693,9 @@ impl Lock {
                     let mv = self.mem.peek(*a).unwrap_or(0);
                     real_poke(&mut self.cpu, *a, mv);
                     if timer_involved {
-                        let _ = self.cpu.bus.write(0xffff80, 0);
+                        for a in [0xffff80u32, 0xffff81, 0xffff90, 0xffff91] {
+                            let _ = self.cpu.bus.write(a, 0);
+                        }
                         for t in 0xffff80u32..=0xffff9f {
                             let mv = self.mem.peek(t).unwrap_or(0);
                             real_poke(&mut self.cpu, t, mv);
